@@ -344,16 +344,8 @@ func (w *World) Check(ctx sdk.Context, l *Ledger, fail func(a, s, d string)) {
 		}
 	}
 	addT(now)
-	if !w.Quick {
-		for _, d := range Durations {
-			addT(now.Add(d))
-		}
-	} else {
-		for _, x := range l.Locks {
-			if !x.Unlocking() {
-				addT(now.Add(x.Dur))
-			}
-		}
+	for _, d := range Durations {
+		addT(now.Add(d))
 	}
 	unswept := false
 	for _, x := range l.Locks {
@@ -448,6 +440,15 @@ func (w *World) Check(ctx sdk.Context, l *Ledger, fail func(a, s, d string)) {
 			}
 		}
 	}
+	// Observation only (DESIGN.md §7 F-6): adding to a lock without a synthetic lock also increases the
+	// accumulation tree filed under the EMPTY denom. No valid denom's total is affected, the statement
+	// quantifies over valid denoms, so this is recorded, never asserted.
+	c.guard("GetPeriodLocksAccumulation", "empty denom", func() {
+		amt := k.GetPeriodLocksAccumulation(q, lockuptypes.QueryCondition{LockQueryType: lockuptypes.ByDuration, Denom: "", Duration: 0})
+		if amt.IsInt64() && amt.Int64() > w.maxEmptyDenomAcc {
+			w.maxEmptyDenomAcc = amt.Int64()
+		}
+	})
 	if c.n > w.maxQueries {
 		w.maxQueries = c.n
 	}
